@@ -154,7 +154,7 @@ def check_case(rec, case):
     def build(R):
         if case.get('parsed') and eps:
             return na.parse_nfa(render(R, eps))
-        return adapt.build_nfa(R, eps, case.get('container', 'defaultdict_set'))
+        return adapt.build_nfa(R, eps, case.get('container', 'defaultdict_set'), scramble=case.get('scr'))
 
     def gen():
         if mode == 'explicit':
@@ -229,4 +229,4 @@ def run(rec, rng, tier):
         check_case(rec, rc)
         return
     for case in gen_cases(rec, rng, tier):
-        check_case(rec, case)
+        check_case(rec, common.with_scramble(case))
